@@ -3,6 +3,7 @@ import Marwood.Vm.ProcInv
 import Marwood.Vm.Encode
 import Marwood.Vm.Verify
 import Marwood.Vm.NoPanicCheck
+import Marwood.Vm.EnvInvCheck
 import Marwood.Heap.Cell
 import Marwood.Spec.Plain
 /-!
@@ -64,7 +65,43 @@ def iofOkB (m : LambdaM) (y : VCell × Source) : Bool :=
 
 /-- decides `LoadedLam m cl` -/
 def loadedB (m : LambdaM) (cl : CLambda) : Bool :=
-  encListB m.bc cl.bc && cl.envmap.all (iofOkB m)
+  encListB m.bc cl.bc && cl.envmap.all (iofOkB m) && decide (cl.envmap.length = m.envmap.length)
+
+/-! ## the environment clauses of a new cell, relative to the heap it is put into -/
+
+/-- `IofEnvironment(k)` in the map of a child: slot `k` of the parent's map holds the same symbol
+    (`EnvironmentMap::new_from_iof`: `k = iof.envmap.get_slot(sym)`) -/
+def iofSlotB (parent : List (VCell × Source)) (y : VCell × Source) : Bool :=
+  match y.2 with
+  | .iofEnv k =>
+    (match parent[k]? with
+     | some z => decide (z.1 = y.1)
+     | none => false)
+  | _ => true
+
+/-- the clause of `ImmLoaded` at position `j` -/
+def immAtB (tbl : List LambdaM) (h : CHeap) (m : LambdaM) (cl : CLambda) (j : Nat) : Bool :=
+  match m.bc[j]?, cl.bc[j]? with
+  | some (.datum _), some v => neE h v
+  | some .newVector, some v => neE h v
+  | some (.lambda id), some (.ptr a) =>
+    (match tbl[id]?, lambdaAt h a with
+     | some m', some cl' => loadedB m' cl' && cl'.envmap.all (iofSlotB cl.envmap)
+     | _, _ => false)
+  | _, _ => true
+
+/-- decides `ImmLoaded tbl h m cl` -/
+def immLoadedB (tbl : List LambdaM) (h : CHeap) (m : LambdaM) (cl : CLambda) : Bool :=
+  (List.range m.bc.length).all (immAtB tbl h m cl)
+
+/-- decides `LamEnvOk h cl` -/
+def envOkB (h : CHeap) (cl : CLambda) : Bool := immTF (capAt h) cl.bc && sitesFB h cl
+
+/-- the clause "no value position leads to a capturing lambda" of a new DATA cell (for a code object it follows
+    from `Q`) -/
+def dataEB (h : CHeap) : CCell → Bool
+  | .lambda _ => true
+  | c => cellEB h c
 
 /-! ## `NPArgs`, `plainBc`, `LamOk`, `CodeOk`, `LoadedQ` -/
 
@@ -115,9 +152,13 @@ def codeOkB (cl : CLambda) : Bool :=
   (verifyLam cl.bc).isSome && noIofB cl && decide (argNeed cl.bc ≤ cl.args.length) && lamOkB cl && npArgsB cl &&
     plainB cl
 
-/-- decides `LoadedQ e fuel` when `objs` are the code objects of `compileRunnable e fuel` -/
-def loadedQB (objs : List LambdaM) (cl : CLambda) : Bool :=
-  objs.any (loadedB · cl) && npArgsB cl && plainB cl
+/-- decides `CodeOkH h cl` -/
+def codeOkHB (h : CHeap) (cl : CLambda) : Bool := codeOkB cl && envOkB h cl
+
+/-- decides `LoadedQ e fuel h` when `objs` are the code objects of `compileRunnable e fuel` and `tbl` is the table the
+    `lambda id` cells index (`st.lambdas ++ [lam]`) -/
+def loadedQB (tbl objs : List LambdaM) (h : CHeap) (cl : CLambda) : Bool :=
+  objs.any (fun m => loadedB m cl && immLoadedB tbl h m cl) && npArgsB cl && plainB cl
 
 /-! ## allocator steps -/
 
@@ -143,11 +184,11 @@ def newCellB (Q : CLambda → Bool) : CCell → Bool
   | _ => false
 
 /-- the side conditions of `InstStep.cell` -/
-def cellStepB (Q : CLambda → Bool) (h : CHeap) (c : CCell) : Bool :=
-  newCellB Q c && crefsOkB h c && cellPB h c
+def cellStepB (Q : CHeap → CLambda → Bool) (h : CHeap) (c : CCell) : Bool :=
+  newCellB (Q h) c && crefsOkB h c && cellPB h c && dataEB h c
 
 /-- replay `k` allocations in allocator order: the next address is `(calloc h).2`; its content is read off `after` -/
-def replay (Q : CLambda → Bool) (after : CHeap) : Nat → CHeap → Option CHeap
+def replay (Q : CHeap → CLambda → Bool) (after : CHeap) : Nat → CHeap → Option CHeap
   | 0, h => some h
   | k + 1, h =>
     match after.cells[(calloc h).2]? with
@@ -189,7 +230,7 @@ def newGlobs (before after : CHeap) : List Nat :=
   after.globSyms.filter fun y => !before.globSyms.contains y
 
 /-- decides (soundly) `InstSteps Q before after` -/
-def stepsB (Q : CLambda → Bool) (before after : CHeap) : Bool :=
+def stepsB (Q : CHeap → CLambda → Bool) (before after : CHeap) : Bool :=
   match (replay Q after (newCount before after) before).bind (globReplay (newGlobs before after)) with
   | some h => resymB h after
   | none => false
@@ -212,12 +253,12 @@ def installsB (e : Datum) (fuel : Nat) (before after : St CHeap) (entry : Nat) :
   regsEqB before after &&
   match compileRunnable e fuel with
   | .ok (st, lam, ent) =>
-    stepsB (loadedQB (lam :: ent :: st.lambdas)) before.heap after.heap && entryB ent after.heap entry &&
+    stepsB (loadedQB (st.lambdas ++ [lam]) (lam :: ent :: st.lambdas)) before.heap after.heap && entryB ent after.heap entry &&
       nonFreeB after.heap entry && !nonFreeB before.heap entry
   | .error _ => false
 
 /-- decides (soundly) `InstallsGarbage before after` -/
 def garbageB (before after : St CHeap) : Bool :=
-  regsEqB before after && stepsB codeOkB before.heap after.heap
+  regsEqB before after && stepsB codeOkHB before.heap after.heap
 
 end Marwood.Vm.Concrete
